@@ -189,6 +189,7 @@ def lib_unit(clsname, kind):
         except PyExc as e:
             V.ensure("post/constructs", z3.BoolVal(False))
             return
+        V.ensure("post/constructs", z3.BoolVal(True))
         ser, de = lib.fields.get("_serializer"), lib.fields.get("_deserializer")
         sq, dq = getattr(ser, "qual", None), getattr(de, "qual", None)
         f = z3.Function("bytes_startswith", BytesS, BytesS, z3.BoolSort())
